@@ -54,7 +54,7 @@ def snapshot_of(text: str) -> str | None:
     return None
 
 
-def dispatch_shape(ctx, RD, RW, RLIVE, only_live: bool = False):
+def dispatch_shape(ctx, RD, RW, RLIVE, only_live: bool = False, RLOCK=None):
     """RD: rule id for (i),(iii),(iv),(v); RLIVE: rule id for (ii) live re-check; RW: consumer-key rule (or None)."""
     P = ctx.P
 
@@ -84,6 +84,9 @@ def dispatch_shape(ctx, RD, RW, RLIVE, only_live: bool = False):
                 if held.get("self._lock", 0) <= 0:
                     lock_ok = False
         cx.check(lock_ok, RD, f"{site} (iii) under-lock", "handler.dispatch() is called without the observer lock held", loc)
+        if RLOCK is not None:
+            # (C05: the re-check and the callback are one critical section; a removal that completes in between is followed by a call)
+            ctx.check(lock_ok, RLOCK, f"{site} callback under the lock of the re-check", "handler.dispatch() is called after the observer lock was released: a removal by another thread that completes between the re-check and the callback is followed by a call of the removed handler", loc)
         for p in paths:
             loops = [e for e in p.evs if e.kind == "loop"]
             for L in loops:
